@@ -123,6 +123,11 @@ func writeFail(id, test string, v *Violation, c any) {
 	}
 	b, _ := json.MarshalIndent(failFile{Property: id, Test: test, Fingerprint: v.Fingerprint, Msg: v.Msg, Case: cb}, "", " ")
 	_ = os.WriteFile(path, b, 0o644)
+	// the first (unshrunk) failing case is kept as well: for schedule-dependent failures the shrunk case
+	// may fail less reliably than the one that was found
+	if _, err := os.Stat(path + ".first"); err != nil {
+		_ = os.WriteFile(path+".first", b, 0o644)
+	}
 }
 
 func knownSet() map[string]bool {
@@ -212,8 +217,17 @@ func Check[C any](t *testing.T, p Prop[C]) {
 		return
 	}
 
+	curPath := os.Getenv("VERIF_CURCASE")
 	rapid.Check(t, func(rt *rapid.T) {
 		c := p.Gen(rt)
+		if curPath != "" {
+			// the code under test may take the whole process down (a panic in one of its own goroutines):
+			// leave the case behind so that the driver can attribute and replay the crash
+			if cb, err := json.Marshal(c); err == nil {
+				b, _ := json.Marshal(failFile{Property: p.ID, Test: t.Name(), Fingerprint: p.ID + "/process-crash", Msg: "the test process died while executing this case", Case: cb})
+				_ = os.WriteFile(curPath, b, 0o644)
+			}
+		}
 		v, o := safeRun(p, c)
 		st.record(c, o)
 		if v != nil {
